@@ -25,17 +25,20 @@ CLASSES = ["SimpleContract", "Contract", "Transport", "ExtendedTransport", "Stor
 
 TEST_GRIDS = [dict(start="2021-01-01T00:00", end="2021-01-02T00:00", freq="6h", mtu="h", tz=None),
               dict(start="2021-01-01T00:00", end="2021-01-02T00:00", freq="6h", mtu="h", tz="CET"),
-              dict(start="2021-01-01T12:00", end="2021-01-03T00:00", freq="6h", mtu="h", tz=None)]
+              dict(start="2021-01-01T12:00", end="2021-01-03T00:00", freq="6h", mtu="h", tz=None),
+              dict(start="2021-03-27T00:00", end="2021-03-29T00:00", freq="6h", mtu="h", tz="CET")]
 
 
 def ivd(vals, form, edges=("2020-12-31T00:00", "2021-01-01T12:00", "2021-01-05T00:00")):
+    if form == "index_freq":   # regular daily dates across the spring clock change
+        edges = ("2021-03-27T00:00", "2021-03-28T00:00", "2021-03-29T00:00")
     return dict(start=[edges[0], edges[1]], end=[edges[1], edges[2]], values=list(vals), form=form)
 
 
 def gen(ch):
     cls = ch.free("class", CLASSES)
     date_tz = ch.pick("date_tz", [None, "CET", "UTC"])
-    form = ch.pick("form", ["list", "array", "index", "objarray"])
+    form = ch.pick("form", ["list", "array", "index", "objarray", "index_freq"])
     when = ch.pick("when", ["before_setup", "after_setup"])
     win = ch.pick("window", [None, ("2021-01-01T06:00", "2021-01-02T18:00")])
     w = dict(start=win[0], end=win[1]) if win else {}
